@@ -100,6 +100,9 @@ func (g *nsGen) next() SOp {
 		if rng.Intn(3) == 0 {
 			o.Sa.Mode = p32(uint32([]int{0o644, 0o600, 0o755, 0o4755}[rng.Intn(4)]))
 		}
+		if rng.Intn(4) == 0 {
+			o.Sa.Size = p64(uint64(rng.Intn(12))) // open(O_CREAT|O_TRUNC)-style: only UNCHECKED over an existing file applies it
+		}
 		g.applyCreate(o)
 	case k < 34:
 		o.Kind, o.Dir, o.Name = "mkdir", dir, name
@@ -197,7 +200,10 @@ func isLinkName(n string) bool { return n == "l1" || n == "l2" }
 
 func (g *nsGen) applyCreate(o SOp) {
 	p := join(o.Dir, o.Name)
-	if _, err := g.shadow.Lstat(p); err == nil {
+	if info, err := g.shadow.Lstat(p); err == nil {
+		if o.How == 0 && o.Sa.Size != nil && info.Mode().IsRegular() {
+			g.shadow.Truncate(p, int64(*o.Sa.Size))
+		}
 		return
 	}
 	if f, err := g.shadow.Create(p); err == nil {
